@@ -52,6 +52,11 @@ def records(ctx):
             add('project2', {'s': enc(fs), 'ns1': ns1, 'ns2': ns}, observe(lambda: fs.project(ns1).project(ns)), site='Spectrum.project')
         else:
             add('project', {'s': enc(fs), 'ns': ns}, observe(lambda: fs.project(ns)), site='Spectrum.project')
+    # 2a. large sample sizes (the statement goes up to n = 200 per axis), incl. the boundary targets m = 1 and m = n
+    for sh in ([201], [151, 3]) if ctx.quick else ([201], [151, 3], [4, 181], [200], [97, 5, 2]):
+        fs = rand_spectrum(rng, sh, folded=rng.random() < 0.3, labels=rand_labels(rng, len(sh)), mask_mode=rng.choice(['corners', 'single']))
+        for ns in ([rng.randint(1, max(1, s - 2)) for s in sh], [1] * len(sh), [s - 1 for s in sh]):
+            add('project', {'s': enc(fs), 'ns': list(ns)}, observe(lambda: fs.project(list(ns))), site='Spectrum.project')
     # 2b. the projection weights are shared (memoised) with Spectrum.from_data_dict: after building spectra from
     #     data dictionaries that project n -> m, the weights and project() for the same (m, n) must be unchanged
     for (n, m) in ([(10, 6), (7, 3)] if ctx.quick else [(10, 6), (7, 3), (16, 9), (24, 5)]):
